@@ -49,13 +49,17 @@ func c03hScenarios(proto string) []hhScenario {
 							if !vreport.Thorough() {
 								// quick tier: a covering subset (every first outcome with and without retry /
 								// per-try timeout; bodies and disconnects on the main outcomes)
-								if body && (f != hhOK && f != hhSilent) {
+								// (early responses: a retriable 5xx, then a retry nobody answers, no per-try timeout -
+								// only the route timeout can complete the request; also with a body: HTTP/2 writes
+								// HEADERS and DATA one after the other)
+								early := f == hhErr && s2 == hhSilent && !try && disc == ""
+								if body && (f != hhOK && f != hhSilent) && !early {
 									continue
 								}
 								if disc != "" && (body || (retry && try) || f == hhErr) {
 									continue
 								}
-								if s2 == hhSilent && !try && f != hhClose {
+								if s2 == hhSilent && !try && f != hhClose && !early {
 									continue
 								}
 							}
@@ -156,7 +160,7 @@ func c03hCore(sc *hhScenario) bool {
 	if r.Body || r.Close {
 		return false
 	}
-	if len(r.Script) > 1 && r.Script[1] == hhSilent && r.Script[0] != hhClose {
+	if len(r.Script) > 1 && r.Script[1] == hhSilent && r.Script[0] != hhClose && !(r.Script[0] == hhErr && sc.TryTimeoutMs == 0) {
 		return false
 	}
 	return true
@@ -216,6 +220,13 @@ func c03hCheck(sc *hhScenario, obs *hhObs, r *vrt.Result, report func(kind, deta
 					sig = f[0] + " " + f[1] + " " + f[2] + fmt.Sprintf(" retried=%v", obs.Attempts[rq.Token] > 1)
 				}
 				sig += fmt.Sprintf(" deviations=%d", r.Cost)
+				// the execution came to rest (no runnable thread, no armed timer) with the request's goroutine
+				// still waiting although the route timeout never elapsed on the virtual clock since the request
+				// was sent: no timer was left that could complete it (see c03Check)
+				if lim := d.SentAtMs[k] + int64(sc.RouteTimeoutMs); len(reqBlocked) > 0 && sc.RouteTimeoutMs > 0 && c03EndMs < lim {
+					sig += "; no timer left to complete it: execution at rest before the route timeout elapsed"
+					full += fmt.Sprintf(" [virtual clock at rest %dms < sent %dms + timeout %dms]", c03EndMs, d.SentAtMs[k], sc.RouteTimeoutMs)
+				}
 				detail := fmt.Sprintf("scenario %s, request %s on connection %d; state: %s; blocked=%v log=%v", sc.Name, rq.Token, ci, full, r.Blocked, obs.Log)
 				if d.ByClient {
 					// the client itself went away: ending without a reply is allowed - but the exchange has to END
@@ -368,7 +379,11 @@ func c03hRunScenario(p *vreport.Part, sc hhScenario, replay bool, deadline time.
 		opts.Replay = true
 		opts.Prefix = sc.Choices
 	}
-	st := vrt.Explore(opts, func() { hhBody(&sc, obs) }, func(r *vrt.Result) {
+	st := vrt.Explore(opts, func() {
+		c03EndMs = 0
+		hhBody(&sc, obs)
+		c03EndMs = int64(vrt.Now() / time.Millisecond)
+	}, func(r *vrt.Result) {
 		p.Eval()
 		if hhDebug() {
 			fmt.Printf("EXEC %s\n  outcome=%s\n  log=%v active=%d\n", r, hhOutcome(obs), obs.Log, obs.Active)
@@ -469,5 +484,5 @@ func c03hMain(part, proto string) {
 	}
 	p.Note("scenarios", n)
 	p.End(complete, fmt.Sprintf("%d "+proto+" scenarios (this shard), all schedules of workers / stream connection goroutines / timers / clients / upstream peers with <=%d deviations from the default scheduler (delay bounding; safety cap %d executions per scenario); %d core scenarios additionally with <=%d deviations, first %d executions in DFS order (not exhaustive); timers fire in virtual-deadline order", n, bound, capFull, deep, bound+1, capDeep),
-		"scenario grid {GET,POST+body}x{retry policy}x{per-try timeout}x{per-attempt upstream script: ok, 5xx, close, silent}x{client disconnect: none, after sending, after the request reached an upstream} + connect failures, send failure, no route/no host/unhealthy, overflow, split / truncated / Connection: close replies, replies racing the timers, keep-alive and pipelined / concurrent second requests (HTTP/2: RST_STREAM, replies on finished / unknown streams instead of the Connection: close cases); one evaluation = one complete execution of the real proxy + HTTP stream and pool code under one schedule; distinct = distinct (scenario, downstream responses, upstream attempts, peer actions)")
+		"scenario grid {GET,POST+body}x{retry policy}x{per-try timeout}x{per-attempt upstream script: ok, 5xx, close, silent}x{client disconnect: none, after sending, after the request reached an upstream} + early responses (retriable 5xx x silent retry x no per-try timeout, GET and POST+body: only the route timeout can complete the request; an unanswered request at rest before the route timeout elapsed on the virtual clock is its own finding class) + connect failures, send failure, no route/no host/unhealthy, overflow, split / truncated / Connection: close replies, replies racing the timers, keep-alive and pipelined / concurrent second requests (HTTP/2: RST_STREAM, replies on finished / unknown streams instead of the Connection: close cases); one evaluation = one complete execution of the real proxy + HTTP stream and pool code under one schedule; distinct = distinct (scenario, downstream responses, upstream attempts, peer actions)")
 }
